@@ -343,7 +343,7 @@ func c18ProgDrivers2() []c18ProgDriver {
 			e.K["NewPublishHeader(c.document, name.String(), selectedExtraTab, c.options, c.indexLetters, c.placesMap)"] =
 				g.nest("PublishHeader", g.envPublishHeader(doc, title, "extra", o, ls))
 			e.K["NewAllParentButtons(c.document, c.individual, c.options.LivingVisibility, c.placesMap)"] =
-				c18Real(ghtml.NewAllParentButtons(doc, ind, vis, nil))
+				g.nest("AllParentButtons", g.envAllParentButtons(doc, ind, vis))
 			e.K["individualName := NewIndividualName(c.individual, c.options.LivingVisibility, UnknownEmphasis)"] =
 				g.kidOr("IndividualName", func() *c18Env { return g.envIndividualName(ind, vis, ghtml.UnknownEmphasis) }, ghtml.NewIndividualName(ind, vis, ghtml.UnknownEmphasis))
 			e.K["individualDates := NewIndividualDates(c.individual, c.options.LivingVisibility)"] =
